@@ -24,10 +24,10 @@ confirm)
   echo "repo HEAD $(git -C /repo rev-parse --short HEAD)" >> "$log"
   git -C "$W" apply --check "$dir/patch.diff" && echo "1. patch applies: yes" >> "$log" || { echo "1. patch applies: NO" >> "$log"; cat "$log"; exit 1; }
   mkdir -p "$(dirname "$W/$demo_dest")"; cp "$dir/$demo_src" "$W/$demo_dest"
-  ( cd "$W" && CARGO_TARGET_DIR=$T cargo test --offline -p "$crate" ${SEED_FEATURES:+--features $SEED_FEATURES} "$@" 2>&1 | grep -E "^test result|FAILED|panicked|error(\[|:)" | head -5 ) > /tmp/confirm.$$ 2>&1
+  ( cd "$W" && RUSTFLAGS="${SEED_DEMO_RUSTFLAGS:-}" CARGO_TARGET_DIR=$T${SEED_DEMO_RUSTFLAGS:+-flags} cargo test --offline -p "$crate" ${SEED_FEATURES:+--features $SEED_FEATURES} "$@" 2>&1 | grep -E "^test result|FAILED|panicked|error(\[|:)" | head -5 ) > /tmp/confirm.$$ 2>&1
   echo "2. demo WITHOUT the patch: $(tr '\n' ' ' < /tmp/confirm.$$)" >> "$log"
   git -C "$W" apply "$dir/patch.diff"
-  ( cd "$W" && CARGO_TARGET_DIR=$T cargo test --offline -p "$crate" ${SEED_FEATURES:+--features $SEED_FEATURES} "$@" 2>&1 | grep -E "^test result|FAILED|panicked|error(\[|:)" | head -5 ) > /tmp/confirm.$$ 2>&1
+  ( cd "$W" && RUSTFLAGS="${SEED_DEMO_RUSTFLAGS:-}" CARGO_TARGET_DIR=$T${SEED_DEMO_RUSTFLAGS:+-flags} cargo test --offline -p "$crate" ${SEED_FEATURES:+--features $SEED_FEATURES} "$@" 2>&1 | grep -E "^test result|FAILED|panicked|error(\[|:)" | head -5 ) > /tmp/confirm.$$ 2>&1
   echo "3. demo WITH the patch: $(tr '\n' ' ' < /tmp/confirm.$$ | cut -c1-600)" >> "$log"
   rm -f "$W/$demo_dest"
   ( cd "$W" && CARGO_TARGET_DIR=$T cargo test --offline -p "$crate" ${SEED_FEATURES:+--features $SEED_FEATURES} 2>&1 | grep -E "^test result|FAILED|failed" | head -12 ) > /tmp/confirm.$$ 2>&1
